@@ -36,7 +36,8 @@ EXTRA = {
     "C19": T("TablesMs", ["tables_cli_parse_flags", "tables_cli_parse_tests"]),
 }
 # theorems of other properties that a property's level rests on
-BORROW = {"C03": [("C01", "resolve_valid"), ("C06", "resolve_asdict")]}
+BORROW = {"C03": [("C01", "resolve_valid"), ("C06", "resolve_asdict")], "C01": [("C08", "C08.fromMs_valid_all")],
+          "C02": [("C03", "resolve_eq_fill"), ("C18", "resolve_alias_insensitive")]}
 reg = {}
 for pid, mods in FILES.items():
     entries = []
